@@ -5,6 +5,7 @@ when the assignment encodes the documented witness.
 Property theorems only; helper lemmas are in `Lemmas/Fam*.lean`.
 -/
 import Lemmas.FamIso
+import Lemmas.FamSubgraph
 import Lemmas.FamCount
 import Lemmas.Constr
 namespace Cnfgen.C02
@@ -254,5 +255,120 @@ theorem graphIsomorphism_cnf (G1 G2 : SimpleG) (α : Assign) :
 theorem graphIsomorphism_opb (G1 G2 : SimpleG) (α : Assign) :
     (graphIsomorphism G1 G2).toOPB.holds α = (graphIsomorphism G1 G2).holds α :=
   Formula.toOPB_holds α _ (graphIsomorphism_wf G1 G2)
+
+/-! ## T-C02.5 k-clique (unary encoding) -/
+
+/-- `l = [f 1, …, f k]` lists a `k`-clique of `G`: `k` vertices, pairwise adjacent; strictly increasing
+when symmetry breaking is on (one table per clique), repetition-free otherwise (an *ordered* `k`-clique) -/
+structure IsCliqueTable (G : SimpleG) (k : Nat) (symbreak : Bool) (l : List Nat) : Prop where
+  len : l.length = k
+  rng : ∀ v ∈ l, 1 ≤ v ∧ v ≤ G.n
+  shape : if symbreak then l.Pairwise (· < ·) else l.Nodup
+  adjacent : l.Pairwise (fun a b => adj G a b = true)
+
+theorem cliqueCore_nvars (G : SimpleG) (k : Nat) (sb : Bool) : (cliqueCore G k sb).nvars = k * G.n := rfl
+
+theorem cliqueCore_wf (G : SimpleG) (k : Nat) (sb : Bool) : (cliqueCore G k sb).WF :=
+  wf_of_consIn (cliqueCore_consIn G k sb)
+
+/-- parameter validation of `CliqueFormula` -/
+theorem cliqueFormula_eq (G : SimpleG) (k : Int) (sb : Bool) :
+    cliqueFormula G k sb = if k < 0 then .error .valueError else .ok (cliqueCore G k.toNat sb) := rfl
+
+/-- specification theorem: the formula holds exactly under the assignments that encode an increasing
+embedding of `K_k` (symmetry breaking) / an ordered `k`-clique (no symmetry breaking) -/
+theorem cliqueCore_holds (G : SimpleG) (hG : GoodGraph G) (k : Nat) (sb : Bool) (α : Assign) :
+    (cliqueCore G k sb).holds α = true ↔ ∃ l, IsCliqueTable G k sb l ∧ EncL 1 k G.n α l := by
+  simp only [Formula.holds, cliqueCore, List.all_eq_true]
+  rw [List.forall_mem_append, prefix_sym_holds]
+  constructor
+  · rintro ⟨⟨l, hl, hs⟩, he⟩
+    exact ⟨l, ⟨hl.len, hl.rng, hs, (cliqueEdges_iff hG hl hs).1 he⟩, hl⟩
+  · rintro ⟨l, ⟨_, _, hs, ha⟩, hl⟩
+    exact ⟨⟨l, hl, hs⟩, (cliqueEdges_iff hG hl hs).2 ha⟩
+
+/-- non-vacuity: the triangle `{1,2,3}` in `K_3` plus a pendant vertex -/
+example : IsCliqueTable ⟨4, 4, [[], [2, 3], [1, 3], [1, 2, 4], [3]],
+    [(4, 3), (3, 4), (3, 2), (2, 3), (3, 1), (1, 3), (2, 1), (1, 2)]⟩ 3 true [1, 2, 3] :=
+  ⟨rfl, by decide, by decide, by decide⟩
+
+/-- a `k`-clique of `G` as a set of vertices (strictly increasing list) -/
+def IsClique (G : SimpleG) (S : List Nat) : Prop :=
+  S.Pairwise (· < ·) ∧ (∀ v ∈ S, 1 ≤ v ∧ v ≤ G.n) ∧ ∀ u ∈ S, ∀ v ∈ S, u ≠ v → adj G u v = true
+
+def HasClique (G : SimpleG) (k : Nat) : Prop := ∃ S, IsClique G S ∧ S.length = k
+
+theorem isCliqueTable_true_iff (G : SimpleG) (hG : GoodGraph G) (k : Nat) (l : List Nat) :
+    IsCliqueTable G k true l ↔ IsClique G l ∧ l.length = k := by
+  constructor
+  · rintro ⟨a, b, c, d⟩
+    exact ⟨⟨c, b, (pairwise_adj_iff hG (nodup_of_sorted c)).1 d⟩, a⟩
+  · rintro ⟨⟨c, b, d⟩, a⟩
+    exact ⟨a, b, c, (pairwise_adj_iff hG (nodup_of_sorted c)).2 d⟩
+
+/-- satisfiable iff `G` has a `k`-clique — with and without symmetry breaking -/
+theorem cliqueCore_sat_iff (G : SimpleG) (hG : GoodGraph G) (k : Nat) (sb : Bool) :
+    (∃ α, (cliqueCore G k sb).holds α = true) ↔ HasClique G k := by
+  constructor
+  · rintro ⟨α, hα⟩
+    obtain ⟨l, ⟨a, b, c, d⟩, _⟩ := (cliqueCore_holds G hG k sb α).1 hα
+    cases sb
+    · obtain ⟨l', hp, hs, hadj⟩ := exists_sorted_of_nodup hG c d
+      refine ⟨l', ⟨hs, fun v hv => b v (hp.mem_iff.1 hv), (pairwise_adj_iff hG (nodup_of_sorted hs)).1 hadj⟩, ?_⟩
+      rw [hp.length_eq, a]
+    · exact ⟨l, ((isCliqueTable_true_iff G hG k l).1 ⟨a, b, c, d⟩).1, a⟩
+  · rintro ⟨S, hS, hk⟩
+    have ht := (isCliqueTable_true_iff G hG k S).2 ⟨hS, hk⟩
+    have ht' : IsCliqueTable G k sb S := by
+      cases sb
+      · exact ⟨ht.len, ht.rng, nodup_of_sorted ht.shape, ht.adjacent⟩
+      · exact ht
+    exact ⟨encode 1 k G.n S, (cliqueCore_holds G hG k sb _).2 ⟨S, ht', encode_encL ht'.len ht'.rng⟩⟩
+
+/-- no clique is larger than the graph: unsatisfiable for `k > |V|` -/
+theorem not_hasClique_of_gt (G : SimpleG) (k : Nat) (h : G.n < k) : ¬ HasClique G k := by
+  rintro ⟨S, ⟨hs, hr, _⟩, hk⟩
+  have := List.Nodup.length_le_of_subset (nodup_of_sorted hs) (l₂ := verts G.n)
+    (fun v hv => mem_verts.2 (hr v hv))
+  rw [verts_length] at this
+  omega
+
+theorem cliqueCore_unsat_of_gt (G : SimpleG) (hG : GoodGraph G) (k : Nat) (sb : Bool) (h : G.n < k) (α : Assign) :
+    (cliqueCore G k sb).holds α = false := by
+  cases e : (cliqueCore G k sb).holds α
+  · rfl
+  · exact absurd ((cliqueCore_sat_iff G hG k sb).1 ⟨α, e⟩) (not_hasClique_of_gt G k h)
+
+/-- the explicit bijection between satisfying assignments and clique tables: with symmetry breaking
+the tables are the `k`-cliques themselves, without they are the ordered `k`-cliques -/
+theorem cliqueCore_count (G : SimpleG) (hG : GoodGraph G) (k : Nat) (sb : Bool) :
+    (∀ l, IsCliqueTable G k sb l → (cliqueCore G k sb).holds (encode 1 k G.n l) = true) ∧
+    (∀ α, (cliqueCore G k sb).holds α = true →
+        ∃ l, IsCliqueTable G k sb l ∧ AgreeOn (k * G.n) α (encode 1 k G.n l)) ∧
+    (∀ l l', IsCliqueTable G k sb l → IsCliqueTable G k sb l' →
+        AgreeOn (k * G.n) (encode 1 k G.n l) (encode 1 k G.n l') → l = l') :=
+  unary_counting (cliqueCore G k sb) k G.n rfl (IsCliqueTable G k sb)
+    (cliqueCore_holds G hG k sb) (fun _ hl => ⟨hl.len, hl.rng⟩)
+
+theorem cliqueCore_models_equiv (G : SimpleG) (hG : GoodGraph G) (k : Nat) (sb : Bool) :
+    Nonempty (Models (cliqueCore G k sb) ≃ {l : List Nat // IsCliqueTable G k sb l}) :=
+  unary_counting_equiv (cliqueCore G k sb) (cliqueCore_wf G k sb) k G.n rfl (IsCliqueTable G k sb)
+    (cliqueCore_holds G hG k sb) (fun _ hl => ⟨hl.len, hl.rng⟩)
+
+/-- with symmetry breaking: satisfying assignments ↔ `k`-cliques (as vertex sets) -/
+theorem cliqueCore_models_equiv_cliques (G : SimpleG) (hG : GoodGraph G) (k : Nat) :
+    Nonempty (Models (cliqueCore G k true) ≃ {S : List Nat // IsClique G S ∧ S.length = k}) := by
+  obtain ⟨e⟩ := cliqueCore_models_equiv G hG k true
+  exact ⟨e.trans
+    ⟨fun x => ⟨x.1, (isCliqueTable_true_iff G hG k x.1).1 x.2⟩,
+     fun x => ⟨x.1, (isCliqueTable_true_iff G hG k x.1).2 x.2⟩, fun _ => rfl, fun _ => rfl⟩⟩
+
+theorem cliqueCore_cnf (G : SimpleG) (k : Nat) (sb : Bool) (α : Assign) :
+    (cliqueCore G k sb).toCNF.holds α = (cliqueCore G k sb).holds α :=
+  Formula.toCNF_holds α _ (cliqueCore_wf G k sb)
+
+theorem cliqueCore_opb (G : SimpleG) (k : Nat) (sb : Bool) (α : Assign) :
+    (cliqueCore G k sb).toOPB.holds α = (cliqueCore G k sb).holds α :=
+  Formula.toOPB_holds α _ (cliqueCore_wf G k sb)
 
 end Cnfgen.C02
